@@ -38,6 +38,7 @@ type Recorder struct {
 	distinct    map[uint64]struct{}
 	Samples     []interface{}
 	maxSamples  int
+	anySamples  int
 	started     time.Time
 	Exhaustive  bool
 	Rule        string
@@ -123,6 +124,10 @@ func (r *Recorder) Sample(nontrivial bool, mk func() interface{}) {
 	r.mu.Lock()
 	defer r.mu.Unlock()
 	if !nontrivial {
+		if r.anySamples < 1 {
+			r.anySamples++
+			r.Samples = append(r.Samples, mk())
+		}
 		return
 	}
 	n := len(r.nontrivial)
